@@ -28,48 +28,7 @@ ROUNDING_CALLS = {"pow", "log", "log10", "log2", "exp", "sqrt", "fsum", "ldexp",
 def run(repo, rep, tier):
     # ---- R1 dispatch order
     fv = repo.func("cell.py", "Cell._from_value")
-    chain = [n for n in fv.body if isinstance(n, ast.If)]
-    if not chain:
-        raise AnalysisError("Cell._from_value: isinstance chain not found")
-    node = chain[0]
-    order = []
-    while True:
-        t = node.test
-        typ = None
-        if isinstance(t, ast.Call) and call_name(t) == "isinstance" and len(t.args) == 2 and U(t.args[0]) == "value":
-            typ = U(t.args[1])
-        cls = None
-        for b in ast.walk(ast.Module(body=node.body, type_ignores=[])):
-            if isinstance(b, ast.Assign) and U(b.targets[0]) == "cell" and isinstance(b.value, ast.Call):
-                cls = call_name(b.value)
-                cargs = [U(a) for a in b.value.args]
-        order.append((typ, cls, node, cargs if cls else []))
-        if len(node.orelse) == 1 and isinstance(node.orelse[0], ast.If):
-            node = node.orelse[0]
-        else:
-            tail = node.orelse
-            break
-    seen = []
-    for typ, cls, nd, cargs in order:
-        types = [typ] if typ and not typ.startswith("(") else [x.strip() for x in (typ or "").strip("()").split(",")]
-        for ty in types:
-            sup_seen = [s for s in seen if SUBCLASS_OF.get(ty) == s]
-            ok = not sup_seen
-            rep.ob("C01.R1", nd, f"_from_value: isinstance(value, {ty}) tested before its superclass", ok,
-                   "" if ok else f"{ty} is a subclass of {sup_seen[0]} which is tested earlier: every {ty} is stored as the cell kind of {sup_seen[0]}",
-                   key=f"C01.R1@from_value:order:{ty}")
-            if ty in EXPECT_CLASS:
-                okc = cls == EXPECT_CLASS[ty] and cargs[:2] == ["row", "col"]
-                rep.ob("C01.R1", nd, f"_from_value: {ty} -> {cls}({', '.join(cargs)})", okc,
-                       "" if okc else f"expected {EXPECT_CLASS[ty]}(row, col, ...)", key=f"C01.R1@from_value:class:{ty}")
-                if ty != "float":
-                    okv = len(cargs) == 3 and cargs[2] == "value"
-                    rep.ob("C01.R1", nd, f"_from_value: {ty} cell holds the written value itself", okv, "", key=f"C01.R1@from_value:value:{ty}")
-            seen.append(ty)
-    missing = [t for t in EXPECT_CLASS if t not in seen]
-    rep.ob("C01.R1", fv, f"_from_value handles {sorted(EXPECT_CLASS)}", not missing, f"missing {missing}", key="C01.R1@from_value:complete")
-    ok = any(isinstance(x, ast.Raise) for x in ast.walk(ast.Module(body=tail, type_ignores=[])))
-    rep.ob("C01.R1", fv, "_from_value refuses other types", ok, "", key="C01.R1@from_value:else")
+    _from_value_table(repo, rep, fv)
     # float rounding keeps 15 significant digits
     fl = [n for n in body_walk(fv) if isinstance(n, ast.Call) and call_name(n) == "sigfig"]
     ok = bool(fl) and any(kw.arg == "sigfigs" and U(kw.value) == "MAX_SIGNIFICANT_DIGITS" for kw in fl[0].keywords) and repo.consts.get("MAX_SIGNIFICANT_DIGITS") == 15
@@ -161,10 +120,8 @@ def run(repo, rep, tier):
     ok = "self._table_strings.lookup_key(table_id, value)" in U(tk) and "self._table_strings.lookup_value(table_id, key).string" in U(tsf)
     rep.ob("C01.R2", tk, "text keys are allocated in and resolved from the same string list", ok, "", key="C01.R2@strings:same-list")
     lk = repo.func("model.py", "DataLists.lookup_key")
-    s = U(lk)
-    ok = "value_key not in self._datalists[table_id]['by_value']" in s and "self._datalists[table_id]['by_value'][value_key] = key" in s \
-        and "self._datalists[table_id]['by_key'][key] = entry" in s and "self._datalists[table_id]['next_key'] += 1" in s and "'key': key" in s
-    rep.ob("C01.R2", lk, "lookup_key allocates a fresh key per distinct value and indexes it both ways", ok, "", key="C01.R2@strings:lookup_key")
+    why = _lookup_key_problem(repo, lk)
+    rep.ob("C01.R2", lk, "lookup_key allocates a fresh key per distinct value and indexes it both ways", why is None, why or "", key="C01.R2@strings:lookup_key")
     vk = repo.func("model.py", "DataLists.value_key")
     ok = U(vk).replace(" ", "").endswith("returnvalue") and "repr(value)" in U(vk)
     rep.ob("C01.R2", vk, "distinct strings have distinct value keys (identity for plain values)", ok, "", key="C01.R2@strings:value_key")
@@ -303,6 +260,8 @@ def check_decimal128(repo, rep):
     for n in body_walk(pf):
         tgt = n.target if isinstance(n, ast.AugAssign) else (n.targets[0] if isinstance(n, ast.Assign) and len(n.targets) == 1 else None)
         if isinstance(tgt, ast.Subscript) and U(tgt.value) == buf and not in_loop(n):
+            if isinstance(tgt.slice, ast.Slice) and isinstance(n, ast.Assign) and _to_bytes_call(n.value) is not None:
+                continue  # the mantissa bytes written in one slice store: decided with the mantissa loop below
             idx = try_const(tgt.slice, env)
             if not isinstance(idx, int):
                 raise AnalysisError(f"_pack_decimal128: write to {U(tgt)} with a non-constant index")
@@ -420,6 +379,34 @@ def check_decimal128(repo, rep):
                         and all(mb.bits.get(p) == (mvar, p + 8) for p in range(64)) and il is not None and (il - Lin(1, {ivar: 1})).is_const()
                         and (il - Lin(1, {ivar: 1})).c == 0 and i0 == 0)
                 wdetail = f"byte[{ivar}] <- {sb_}; {mvar} <- {mb}; {ivar} <- {il}; first index {i0}"
+    # the same bytes through ``int.to_bytes``: ``buf[:n] = m.to_bytes(n, "little")`` or ``for i, b in enumerate(m.to_bytes(n, "little")): buf[i] = b``
+    # with n = (m.bit_length() + 7) // 8 (the bytes the loop above would write) or the constant 14 (all mantissa bytes)
+    if not wl:
+        tb = None
+        for n in body_walk(pf):
+            if isinstance(n, ast.Assign) and len(n.targets) == 1 and isinstance(n.targets[0], ast.Subscript) and U(n.targets[0].value) == buf and isinstance(n.targets[0].slice, ast.Slice):
+                c = _to_bytes_call(n.value)
+                sl = n.targets[0].slice
+                if c is not None and sl.step is None and (sl.lower is None or try_const(sl.lower, env) == 0) and sl.upper is not None:
+                    tb = (n, c, sp.at(n, sl.upper))
+            if isinstance(n, ast.For) and isinstance(n.iter, ast.Call) and call_name(n.iter) == "enumerate" and len(n.iter.args) == 1 and not n.iter.keywords:
+                c = _to_bytes_call(n.iter.args[0])
+                tg = n.target
+                if c is not None and isinstance(tg, ast.Tuple) and len(tg.elts) == 2 and all(isinstance(x, ast.Name) for x in tg.elts) and len(n.body) == 1 \
+                        and isinstance(n.body[0], ast.Assign) and U(n.body[0].targets[0]) == f"{buf}[{tg.elts[0].id}]" and U(n.body[0].value) == tg.elts[1].id:
+                    tb = (n, c, None)
+        if tb is not None:
+            n, c, upper = tb
+            m_txt = U(c.func.value)
+            length = sp.at(n, c.args[0])
+            want = U(ast.BinOp(left=ast.BinOp(left=ast.Call(func=ast.Attribute(value=sp.at(n, c.func.value), attr="bit_length", ctx=ast.Load()), args=[], keywords=[]),
+                                            op=ast.Add(), right=ast.Constant(7)), op=ast.FloorDiv(), right=ast.Constant(8)))
+            len_ok = U(length) == want or try_const(length, env) == 14
+            up_ok = upper is None or U(upper) == U(length)
+            order = c.args[1] if len(c.args) > 1 else next((k.value for k in c.keywords if k.arg == "byteorder"), None)
+            signed = next((k.value for k in c.keywords if k.arg == "signed"), None)
+            ok_w = len_ok and up_ok and try_const(order, env) == "little" and (signed is None or try_const(signed, env) is False)
+            wdetail = f"{U(c)} with length `{U(length)}` stored at `{U(n.targets[0]) if isinstance(n, ast.Assign) else U(n.body[0].targets[0])}`"
     # ---- mantissa bytes: reader loop
     rl = [n for n in body_walk(uf) if isinstance(n, ast.For)]
     ok_r = False
@@ -452,6 +439,36 @@ def check_decimal128(repo, rep):
             used_after = U(m_expr) == acc or acc in U(su.at(jret[-1], m_expr))
             ok_r = horner and dom["step"] == -1 and full and init_ok and used_after
             rdetail = f"{acc} <- {rb} for {dom['var']} from {hi.c - 1 if hi.is_const() else hi} down to {lo.c if lo.is_const() else lo} (step {dom['step']}); initial {init}"
+    # the same value through ``int.from_bytes(buf[0:14], "little")``, with bit 112 from ``buf[14] & 1`` or-ed / added on top
+    if not rl:
+        for n in body_walk(uf):
+            if isinstance(n, ast.Assign) and len(n.targets) == 1 and isinstance(n.targets[0], ast.Name) and any(
+                    isinstance(c, ast.Call) and last_attr(c.func) == "from_bytes" for c in ast.walk(n.value)):
+                acc = n.targets[0].id
+                parts_ = []
+                def split(e):
+                    if isinstance(e, ast.BinOp) and isinstance(e.op, (ast.BitOr, ast.Add)):
+                        split(e.left), split(e.right)
+                    else:
+                        parts_.append(e)
+                split(n.value)
+                fb = [e for e in parts_ if isinstance(e, ast.Call) and last_attr(e.func) == "from_bytes"]
+                rest = [e for e in parts_ if e not in fb]
+                good = False
+                if len(fb) == 1 and U(fb[0].func) == "int.from_bytes" and fb[0].args:
+                    a0 = fb[0].args[0]
+                    order = fb[0].args[1] if len(fb[0].args) > 1 else next((k.value for k in fb[0].keywords if k.arg == "byteorder"), None)
+                    signed = next((k.value for k in fb[0].keywords if k.arg == "signed"), None)
+                    good = isinstance(a0, ast.Subscript) and U(a0.value) == ubuf and isinstance(a0.slice, ast.Slice) and a0.slice.step is None \
+                        and (a0.slice.lower is None or try_const(a0.slice.lower, env) == 0) and try_const(a0.slice.upper, env) == 14 \
+                        and try_const(order, env) == "little" and (signed is None or try_const(signed, env) is False)
+                top_ok = True
+                for e in rest:
+                    b_ = bv(e, env, byte_arrays={ubuf})
+                    top_ok = top_ok and b_.bits == {112: (f"{ubuf}[14]", 0)} and not b_.ones
+                used_after = U(m_expr) == acc or acc in U(su.at(jret[-1], m_expr))
+                ok_r = good and top_ok and len(rest) <= 1 and used_after
+                rdetail = f"{acc} <- {U(n.value)[:90]}"
     ok = ok_w and ok_r
     rep.ob("C01.R3", uf, "mantissa bytes little-endian on both sides", ok,
            "" if ok else f"writer: {wdetail}; reader: {rdetail}", key="C01.R3@mantissa-bytes")
@@ -476,6 +493,13 @@ def check_decimal128(repo, rep):
         r_ok = sbv.bits == {7: (f"{ubuf}[15]", 7)} and not sbv.ones
     rep.ob("C01.R3", pf, "sign bit placed identically", ok and r_ok,
            "" if ok and r_ok else f"writer sign writes: {[(i, repr(b)) for i, b, c, n in sign_w]}; reader negates on `{U(neg[0].test) if neg else None}`", key="C01.R3@sign")
+
+
+def _to_bytes_call(e):
+    """``<m>.to_bytes(n, order)`` -> the call, else None"""
+    if isinstance(e, ast.Call) and isinstance(e.func, ast.Attribute) and e.func.attr == "to_bytes" and e.args:
+        return e
+    return None
 
 
 def _anc(n):
@@ -570,7 +594,153 @@ VARIANTS = [
     M("string-key-cached", "model.py", "    def table_string_key(self, table_id: int, value: str) -> int:", "    @cache(num_args=2)\n    def table_string_key(self, table_id: int, value: str) -> int:", "C01.R4"),
     M("text-flag-wrong", "cell.py", "            flags = 8\n            length += 4\n            cell_type = TSTArchives.textCellType", "            flags = 0x10\n            length += 4\n            cell_type = TSTArchives.textCellType", "C01.R2"),
     M("exponent-bias-mismatch", "cell.py", "exp = (((buffer[15] & 0x7F) << 7) | (buffer[14] >> 1)) - DECIMAL128_BIAS", "exp = (((buffer[15] & 0x7F) << 7) | (buffer[14] >> 1)) - DECIMAL128_BIAS + 0", "ANALYSIS-SKIP"),
+    T("decimal128-writer-to-bytes-slice", "cell.py", '    i = 0\n    while mantissa >= 1:\n        buffer[i] = mantissa & 0xFF\n        i += 1\n        mantissa >>= 8\n',
+      "    num_bytes = (mantissa.bit_length() + 7) // 8\n    buffer[:num_bytes] = mantissa.to_bytes(num_bytes, \"little\")\n"),
+    T("decimal128-writer-to-bytes-enumerate", "cell.py", '    i = 0\n    while mantissa >= 1:\n        buffer[i] = mantissa & 0xFF\n        i += 1\n        mantissa >>= 8\n',
+      "    for i, byte in enumerate(mantissa.to_bytes((mantissa.bit_length() + 7) // 8, \"little\")):\n        buffer[i] = byte\n"),
+    M("decimal128-writer-to-bytes-big", "cell.py", '    i = 0\n    while mantissa >= 1:\n        buffer[i] = mantissa & 0xFF\n        i += 1\n        mantissa >>= 8\n',
+      "    num_bytes = (mantissa.bit_length() + 7) // 8\n    buffer[:num_bytes] = mantissa.to_bytes(num_bytes, \"big\")\n", "C01.R3"),
+    M("decimal128-writer-to-bytes-over-exponent", "cell.py", '    i = 0\n    while mantissa >= 1:\n        buffer[i] = mantissa & 0xFF\n        i += 1\n        mantissa >>= 8\n',
+      "    buffer[:15] = mantissa.to_bytes(15, \"little\")\n", "C01.R3"),
+    T("decimal128-reader-from-bytes", "cell.py", '    mantissa = buffer[14] & 1\n    for i in range(13, -1, -1):\n        mantissa = mantissa * 256 + buffer[i]\n',
+      "    mantissa = ((buffer[14] & 1) << 112) | int.from_bytes(buffer[0:14], \"little\")\n"),
+    M("decimal128-reader-from-bytes-13", "cell.py", '    mantissa = buffer[14] & 1\n    for i in range(13, -1, -1):\n        mantissa = mantissa * 256 + buffer[i]\n',
+      "    mantissa = ((buffer[14] & 1) << 112) | int.from_bytes(buffer[0:13], \"little\")\n", "C01.R3"),
+    M("decimal128-reader-from-bytes-top-bit-low", "cell.py", '    mantissa = buffer[14] & 1\n    for i in range(13, -1, -1):\n        mantissa = mantissa * 256 + buffer[i]\n',
+      "    mantissa = ((buffer[14] & 1) << 104) | int.from_bytes(buffer[0:14], \"little\")\n", "C01.R3"),
+    M("decimal128-reader-from-bytes-big", "cell.py", '    mantissa = buffer[14] & 1\n    for i in range(13, -1, -1):\n        mantissa = mantissa * 256 + buffer[i]\n',
+      "    mantissa = ((buffer[14] & 1) << 112) | int.from_bytes(buffer[0:14], \"big\")\n", "C01.R3"),
+    M("lookup-key-returns-advanced-key", "model.py", '            key = self._datalists[table_id]["next_key"]\n            self._datalists[table_id]["next_key"] += 1\n',
+      "            self._datalists[table_id][\"next_key\"] += 1\n            key = self._datalists[table_id][\"next_key\"]\n", "C01.R2"),
+    M("lookup-key-next-key-stuck", "model.py", '            key = self._datalists[table_id]["next_key"]\n            self._datalists[table_id]["next_key"] += 1\n',
+      "            key = self._datalists[table_id][\"next_key\"]\n", "C01.R2"),
+    M("lookup-key-entry-without-value", "model.py", 'attrs = {"key": key, self._value_attr: value, "refcount": 1}', 'attrs = {"key": key, "refcount": 1}', "C01.R2"),
+    M("lookup-key-by-value-keyed-by-key", "model.py", 'self._datalists[table_id]["by_value"][value_key] = key', 'self._datalists[table_id]["by_value"][key] = value_key', "C01.R2"),
     T("from-value-reordered-safe", "cell.py", "        if isinstance(value, str):\n            cell = TextCell(row, col, value)\n        elif isinstance(value, bool):\n            cell = BoolCell(row, col, value)\n",
       "        if isinstance(value, bool):\n            cell = BoolCell(row, col, value)\n        elif isinstance(value, str):\n            cell = TextCell(row, col, value)\n"),
 ]
 VARIANTS = [v for v in VARIANTS if v.expect != "ANALYSIS-SKIP"]
+
+
+def _lookup_key_problem(repo, lk):
+    """The decision table of ``lookup_key`` (function summary, stores as effects over the state on entry):
+    a value already in ``by_value`` returns the key stored there and allocates nothing; a new value returns the old
+    ``next_key``, advances ``next_key``, and files one entry carrying that key and the value under ``by_key[key]`` and
+    ``by_value[value_key(value)]``.  Returns a reason, or None."""
+    from ..funsum import Summarizer
+    paths = Summarizer(consts=repo.consts, effect_calls={"*"}).summarize(lk)
+    hit, miss = [], []
+    D = None
+    for p in paths:
+        known = None
+        for c, outcome in p.conds:
+            if isinstance(c, ast.Compare) and len(c.ops) == 1 and isinstance(c.ops[0], (ast.In, ast.NotIn)) and U(c.comparators[0]).endswith("['by_value']"):
+                if U(c.left).replace(" ", "") != "self.value_key(value)":
+                    return f"membership is tested with `{U(c.left)}`, not with the value's key"
+                D = U(c.comparators[0])[: -len("['by_value']")]
+                known = isinstance(c.ops[0], ast.In) == bool(outcome)
+        if known is None:
+            return "a path that does not ask whether the value is already listed"
+        (hit if known else miss).append(p)
+    if not hit or not miss or D is None:
+        return "no distinction between a listed and a new value"
+    vk = "self.value_key(value)"
+    for p in hit:
+        stores = {k for k, _v, _n in p.effects}
+        if p.kind != "return" or U(p.ret) != f"{D}['by_value'][{vk}]":
+            return f"a listed value returns `{U(p.ret) if p.ret is not None else None}`, not the key stored for it"
+        if any(k.startswith((f"{D}['by_value']", f"{D}['by_key']", f"{D}['next_key']")) for k in stores):
+            return "a listed value re-files or re-numbers entries"
+    k0 = f"{D}['next_key']"
+    for p in miss:
+        fx = {k: (U(v) if not isinstance(v, str) else v) for k, v, _n in p.effects}
+        if p.kind != "return" or U(p.ret) != k0:
+            return f"a new value returns `{U(p.ret) if p.ret is not None else None}`, not the key it was filed under (`{k0}` on entry)"
+        nxt = fx.get(k0, "")
+        ok_next = nxt.startswith(k0 + " + ") and nxt[len(k0) + 3:].isdigit() and int(nxt[len(k0) + 3:]) >= 1
+        if not ok_next:
+            return f"next_key becomes `{nxt or 'unchanged'}`: the next new value would get the same key"
+        if fx.get(f"{D}['by_value'][{vk}]") != k0:
+            return "the new key is not recorded under the value's key in by_value"
+        ent = fx.get(f"{D}['by_key'][{k0}]")
+        if ent is None:
+            return "the new entry is not recorded under its key in by_key"
+        flat = ent.replace(" ", "")
+        if not ((f"'key':{k0}".replace(" ", "") in flat or f"key={k0}".replace(" ", "") in flat) and ("self._value_attr:value" in flat)):
+            return f"the entry filed under the new key is `{ent[:80]}`: it does not carry both the key and the value"
+        if not any(k.startswith("call:") and k.endswith(".entries.append") and (U(v) if not isinstance(v, str) else v) == ent for k, v, _n in p.effects):
+            return "the new entry is not appended to the list that is saved"
+    return None
+
+
+_PYTYPES = {"str": str, "bool": bool, "int": int, "float": float, "datetime": __import__("datetime").datetime, "timedelta": __import__("datetime").timedelta,
+            "date": __import__("datetime").date, "object": object, "bytes": bytes, "list": list, "tuple": tuple, "dict": dict, "type(None)": type(None),
+            "Decimal": __import__("decimal").Decimal, "complex": complex}
+
+
+def _from_value_table(repo, rep, fv):
+    """R1 as a decision table: the function summary of ``_from_value`` is asked, for a value of each Python type a cell can
+    hold, which cell class it returns and with which arguments (the order of the tests matters only through this answer:
+    ``bool`` is an ``int``, ``datetime`` is a ``date``); a value of any other type must be refused."""
+    from ..funsum import Summarizer, decide
+    paths = Summarizer(consts=repo.consts).summarize(fv)
+    atoms = {}
+    for p in paths:
+        for c, _o in p.conds:
+            for n in ast.walk(c):
+                if isinstance(n, ast.Call) and call_name(n) == "isinstance" and len(n.args) == 2 and U(n.args[0]) == "value":
+                    atoms[U(n)] = n.args[1]
+    if not atoms and not any("type(value)" in U(c) for p in paths for c, _o in p.conds):
+        raise AnalysisError("Cell._from_value: no test on the type of the value found")
+
+    def scenario(pytype):
+        sc = {"type(value)": pytype}
+        sc.update(_PYTYPES)
+        for text, tnode in atoms.items():
+            names = [U(e) for e in tnode.elts] if isinstance(tnode, ast.Tuple) else [U(tnode)]
+            unknown = [x for x in names if x not in _PYTYPES]
+            if unknown:
+                raise AnalysisError(f"Cell._from_value: isinstance against `{unknown[0]}`, a type outside the table of value types")
+            sc[text] = pytype is not None and any(issubclass(pytype, _PYTYPES[x]) for x in names)
+        return sc
+
+    seen = []
+    for ty, want in EXPECT_CLASS.items():
+        outs = decide(paths, scenario(_PYTYPES[ty]), limit=6)
+        bad_cls, bad_val, got = None, None, None
+        for _fx, kind, text, pth in outs:
+            call = None
+            if kind == "return" and text:
+                try:
+                    e = ast.parse(text, mode="eval").body
+                    call = e if isinstance(e, ast.Call) else None
+                except SyntaxError:
+                    call = None
+            cls = call_name(call) if call is not None else None
+            cargs = [U(a) for a in call.args] if call is not None else []
+            got = f"{cls}({', '.join(cargs)})" if cls else f"{kind} {text}"
+            if cls != want or cargs[:2] != ["row", "col"]:
+                bad_cls = (got, pth)
+            elif ty != "float" and not (len(cargs) == 3 and cargs[2] == "value"):
+                bad_val = (got, pth)
+        nd = (bad_cls or bad_val or (None, outs[0][3] if outs else None))[1]
+        nd = nd.node if nd is not None and hasattr(nd, "node") and nd.node is not None else fv
+        sup = SUBCLASS_OF.get(ty)
+        if sup in EXPECT_CLASS:
+            oko = not (bad_cls and EXPECT_CLASS[sup] in bad_cls[0])
+            rep.ob("C01.R1", nd, f"_from_value: isinstance(value, {ty}) tested before its superclass", oko,
+                   "" if oko else f"{ty} is a subclass of {sup} which is tested earlier: every {ty} is stored as the cell kind of {sup}",
+                   key=f"C01.R1@from_value:order:{ty}")
+        rep.ob("C01.R1", nd, f"_from_value: {ty} -> {(bad_cls or (got,))[0]}", bad_cls is None,
+               "" if bad_cls is None else f"expected {want}(row, col, ...)", key=f"C01.R1@from_value:class:{ty}")
+        if ty != "float":
+            rep.ob("C01.R1", nd, f"_from_value: {ty} cell holds the written value itself", bad_val is None and bad_cls is None,
+                   "" if bad_val is None else f"got {bad_val[0]}", key=f"C01.R1@from_value:value:{ty}")
+        if bad_cls is None:
+            seen.append(ty)
+    missing = [t for t in EXPECT_CLASS if t not in seen]
+    rep.ob("C01.R1", fv, f"_from_value handles {sorted(EXPECT_CLASS)}", not missing, f"missing {missing}", key="C01.R1@from_value:complete")
+    outs = decide(paths, scenario(type("_Other", (), {})), limit=6)
+    ok = bool(outs) and all(kind == "raise" for _fx, kind, _t, _p in outs)
+    rep.ob("C01.R1", fv, "_from_value refuses other types", ok, "" if ok else f"a value of another type gives {[(k, t) for _f, k, t, _p in outs][:2]}",
+           key="C01.R1@from_value:else")
